@@ -423,9 +423,9 @@ class TimersProfile(BaseProfile):
         cfg["peer_hold"] = HOLDS[(idx // 8) % 8]
         if rng.chance(0.25):
             # ... and values off the grid (the keepalive period H/3 is not an integer for most of them)
-            cfg["peer_hold"] = rng.pick([5, 8, 11, 14, 20, 100, rng.randrange(3, 400)])
+            cfg["peer_hold"] = rng.pick([5, 8, 11, 14, 20, 100, 240, 241, 300, rng.randrange(3, 400)])
         if rng.chance(0.08):
-            cfg["hold_time"] = rng.pick([5, 8, 20, 100, rng.randrange(3, 400)])
+            cfg["hold_time"] = rng.pick([5, 8, 20, 100, 240, 240, 300, rng.randrange(3, 400)])
         if rng.chance(0.2):
             cfg["peer_open0"] = base.gen_open(rng, cfg, "valid", hold=rng.pick([0, 3, 9, 30, 90])).hex()
             cfg["prelude_clean"] = rng.chance(0.5)
@@ -446,11 +446,15 @@ class TimersProfile(BaseProfile):
             # the stock DefaultHandler (message log with a small rotation threshold on the simulated file
             # system) is the application; half of these runs also step the wall clock
             cfg["handler"] = "default"
-            cfg["write_disk"] = True
+            cfg["write_disk"] = rng.chance(0.7)        # (also: message logging switched off)
             cfg["write_keepalive"] = rng.chance(0.5)
             cfg["rotate_bytes"] = rng.pick([200, 600, 2000])
             if rng.chance(0.5):
                 cfg["clock_steps"] = rng.pick([1, 2])
+        if rng.chance(0.1):
+            # Adj-RIB maintenance on, possibly for a family list without ipv4 (classic IPv4 UPDATEs still are UPDATEs)
+            cfg["rib"] = True
+            cfg["afi_safi"] = rng.pick([["ipv4"], ["flowspec"], ["ipv4", "flowspec"], ["ipv6"]])
         if rng.chance(0.1):
             cfg["hfail_established"] = rng.pick([1, 2, 3])
             cfg["hfail_only"] = ["on_established"]
